@@ -24,7 +24,15 @@ class Gate:
         self.tag = tag
 
     def __await__(self):  # noqa: ANN204
-        yield self
+        try:
+            import asyncio
+
+            asyncio.get_running_loop()
+        except RuntimeError:
+            yield self  # driven by hand: hand control to the scheduler
+            return
+        # under a real event loop (file-system loaders): a plain yield point
+        yield from asyncio.sleep(0).__await__()
 
 
 def drive(coro) -> Any:  # noqa: ANN001
